@@ -4,6 +4,8 @@ import (
 	"go/ast"
 	"go/token"
 	"go/types"
+	"strconv"
+	"strings"
 
 	"golang.org/x/tools/go/ssa"
 )
@@ -97,6 +99,17 @@ func (c *Ctx) instrOnlyReads(in ssa.Instruction, g *ssa.Global) bool {
 				// handing the table (a slice / map / pointer into it) to a callee: only reading builtins
 				if bi, ok := x.Common().Value.(*ssa.Builtin); ok && (bi.Name() == "len" || bi.Name() == "cap") {
 					continue
+				}
+				// a module function that neither stores through that parameter nor lets it escape, or a
+				// pure library routine, may look at the table
+				if sc := x.Common().StaticCallee(); sc != nil {
+					if c.inModule(sc) && sc.Blocks != nil {
+						if c.paramOnlyRead(sc, a, x.Common()) {
+							continue
+						}
+					} else if pxPureCallee(sc) || pureExternal[sc.String()] {
+						continue
+					}
 				}
 				if _, isPtr := a.Type().Underlying().(*types.Pointer); isPtr {
 					return false
@@ -224,6 +237,11 @@ func (c *Ctx) constExprTerm(e ast.Expr, depth int) *T {
 			return t
 		}
 	case *ast.CallExpr:
+		// a constructor of the module applied to constants (a set type built from a word list): the
+		// value it returns on its single, effect-free path
+		if t := c.constCallTerm(x, depth); t != nil {
+			return t
+		}
 		// reflect.TypeOf(expr): the static type of the operand (a table keyed by dynamic type)
 		if se, ok := x.Fun.(*ast.SelectorExpr); ok && se.Sel.Name == "TypeOf" && len(x.Args) == 1 {
 			if id, ok := se.X.(*ast.Ident); ok {
@@ -254,4 +272,160 @@ func constantInt64(tv types.TypeAndValue) (int64, bool) {
 	}
 	t := &T{Op: "const", C: tv.Value}
 	return t.intVal()
+}
+
+// paramOnlyRead: the module callee has no store-like effect rooted at the parameter the argument
+// is bound to, and does not return it.
+func (c *Ctx) paramOnlyRead(callee *ssa.Function, arg ssa.Value, cc *ssa.CallCommon) bool {
+	idx := -1
+	for i, a := range callArgs(cc) {
+		if a == arg {
+			idx = i
+		}
+	}
+	sum := c.CG().Sum[callee]
+	if idx < 0 || sum == nil {
+		return false
+	}
+	for _, ef := range sum.Effects {
+		if ef.Root.Kind == "param" && ef.Root.Idx == idx {
+			switch ef.Kind {
+			case "store", "mapupdate", "extmut", "appendto":
+				return false
+			}
+		}
+	}
+	for r := range sum.Returns {
+		if r.Kind == "param" && r.Idx == idx {
+			return false
+		}
+	}
+	return true
+}
+
+// constCallTerm: call is f(constants…) with f a function of the module: if f, evaluated on those
+// arguments, has exactly one path, which returns normally and has no effect, the value returned —
+// with the maps and slices it made on the way frozen into tables.
+func (c *Ctx) constCallTerm(call *ast.CallExpr, depth int) *T {
+	info := c.JenP.TypesInfo
+	var obj types.Object
+	switch fx := ast.Unparen(call.Fun).(type) {
+	case *ast.Ident:
+		obj = info.Uses[fx]
+	case *ast.SelectorExpr:
+		obj = info.Uses[fx.Sel]
+	}
+	fo, ok := obj.(*types.Func)
+	if !ok || fo.Pkg() == nil || !strings.HasPrefix(fo.Pkg().Path(), modulePath) {
+		return nil
+	}
+	sig := fo.Type().(*types.Signature)
+	if sig.Recv() != nil || sig.TypeParams().Len() > 0 {
+		return nil
+	}
+	fn := c.Prog.FuncValue(fo)
+	if fn == nil || fn.Blocks == nil {
+		return nil
+	}
+	var args []*T
+	np := sig.Params().Len()
+	for i, a := range call.Args {
+		if sig.Variadic() && i >= np-1 {
+			break
+		}
+		t := c.constExprTerm(a, depth+1)
+		if t == nil {
+			return nil
+		}
+		args = append(args, t)
+	}
+	if sig.Variadic() {
+		if call.Ellipsis.IsValid() {
+			return nil
+		}
+		va := &T{Op: "elems", HasEl: true, Typ: sig.Params().At(np - 1).Type()}
+		for i := np - 1; i < len(call.Args); i++ {
+			t := c.constExprTerm(call.Args[i], depth+1)
+			if t == nil {
+				return nil
+			}
+			va.Elems = append(va.Elems, t)
+		}
+		args = append(args, va)
+	}
+	if len(args) != np {
+		return nil
+	}
+	paths, trunc := c.Paths(fn, PXConfig{Args: args, MaxDetermined: 8192, MaxDepth: 4, MaxPaths: 4})
+	if trunc || len(paths) != 1 {
+		return nil
+	}
+	p := paths[0]
+	if p.End != "return" || len(p.Ret) != 1 {
+		return nil
+	}
+	for _, e := range p.Events {
+		switch e.Kind {
+		case "store", "mapupdate":
+			// stores into what the path itself made are how the value is built
+			if e.Recv == nil || !(e.Recv.Op == "make" || e.Recv.Op == "alloc" || e.Recv.Op == "faddr" || e.Recv.Op == "iaddr") {
+				return nil
+			}
+		default:
+			return nil
+		}
+	}
+	return freezeTerm(p, p.Ret[0], 0)
+}
+
+// freezeTerm: a value built on path p as a standalone constant (maps made on the path become tables).
+func freezeTerm(p *PXPath, t *T, depth int) *T {
+	if t == nil || depth > 6 {
+		return nil
+	}
+	switch {
+	case t.isConst() || t.Op == "typeconst" || t.Op == "constmap":
+		return t
+	case t.Op == "struct":
+		out := &T{Op: "struct", Fields: map[string]*T{}, Typ: t.Typ, Aux: t.Aux}
+		for k, v := range t.Fields {
+			fv := freezeTerm(p, v, depth+1)
+			if fv == nil {
+				return nil
+			}
+			out.Fields[k] = fv
+		}
+		return out
+	case t.Op == "elems" && t.HasEl:
+		out := &T{Op: "elems", HasEl: true, Typ: t.Typ}
+		for _, e := range t.Elems {
+			fe := freezeTerm(p, e, depth+1)
+			if fe == nil {
+				return nil
+			}
+			out.Elems = append(out.Elems, fe)
+		}
+		return out
+	case t.Op == "make" && isMapType(t.Typ):
+		out := &T{Op: "constmap", HasEl: true, Typ: t.Typ}
+		pre := "m" + strconv.Itoa(t.Inst) + "#"
+		n := 0
+		if v, ok := p.Mem[pre+"n"]; ok {
+			x, _ := v.intVal()
+			n = int(x)
+		}
+		for i := 0; i < n; i++ {
+			k, ok := p.Mem[pre+strconv.Itoa(i)+"k"]
+			if !ok {
+				continue
+			}
+			fk, fv := freezeTerm(p, k, depth+1), freezeTerm(p, p.Mem[pre+strconv.Itoa(i)+"v"], depth+1)
+			if fk == nil || fv == nil {
+				return nil
+			}
+			out.Elems = append(out.Elems, fk, fv)
+		}
+		return out
+	}
+	return nil
 }
